@@ -115,11 +115,17 @@ class Phase:
         self.slow = []
 
 
-def compile_all(tc, items, workers=None):
-    """items: list of (key, src, backend, gc) -> {key: exe or None}, errors"""
+def compile_all(tc, items, workers=None, libdirs=None):
+    """items: list of (key, src, backend, gc) -> {key: exe or None}, errors.
+    With libdirs = {label: runtime lib dir} every item is compiled once and linked per label;
+    the result maps key -> {label: exe}."""
     def work(it):
         key, src, be, gc = it
         exe = os.path.splitext(src)[0] + "-%s-%s" % (be, gname(gc))
+        if libdirs:
+            outs = {d: exe + "-" + label for label, d in libdirs.items()}
+            ok, err = tc.compile_link_many(src, outs, be, gc=gc, timeout=900)
+            return key, ({label: exe + "-" + label for label in libdirs} if ok else None), err
         ok, err = tc.compile(src, exe, be, gc=gc, timeout=900)
         return key, (exe if ok else None), err
     out = {}
@@ -142,11 +148,14 @@ def run_checked(exe, args, flags, env=None, timeout=300):
 # ------------------------------------------------------------------------------------------------
 # Phase A
 
-def phase_graphs(c, tc, scratch, tier):
+def phase_graphs(c, tc, scratch, tier, libdirs):
     quick = tier == "quick"
     d = os.path.join(scratch, "graphs")
     os.makedirs(d)
     combos = [(car, rm) for car in fam_gcgraph.CARRIERS for rm in fam_gcgraph.ROOTMODES]
+    if quick:
+        # every carrier with roots in locals (stack maps), plus the class carrier with roots in an array and in globals
+        combos = [(car, rm) for car, rm in combos if rm == "locals" or car == "class"]
     srcs = {}
     for car, rm in combos:
         p = os.path.join(d, "%s-%s.dora" % (car, rm))
@@ -160,60 +169,89 @@ def phase_graphs(c, tc, scratch, tier):
                 gcs.append("zero")
             for gc in gcs:
                 items.append(((car, rm, be, gc), p, be, gc))
-    exes, errs = compile_all(tc, items)
+    t0 = time.time()
+    exes, errs = compile_all(tc, items, libdirs=libdirs)
+    vcommon.log("graph enumerators: %d compilations in %.1fs" % (len(items), time.time() - t0))
     for key, err in errs.items():
         c.violation("c03:graph-compile-failed:%s:%s" % (key[0], key[2]), "graph enumerator %s does not compile: %s" % (key, err[-300:]),
                     {"key": list(map(str, key)), "stderr": err[-3000:], "source": open(srcs[(key[0], key[1])]).read()})
+    # Two runtimes.  "debug": debug assertions on -- from-space / young pages are protected after every collection, so a
+    # stale reference faults at once, but every collection costs system calls.  "fast": the release runtime, used with
+    # --gc-verify (the collector's own heap verifier) for the bulk of the moving-collector enumeration.
     runs = []
-    for key, exe in exes.items():
-        if exe is None:
+    total3 = fam_gcgraph.total_codes(3)
+    for key, pair in exes.items():
+        if pair is None:
             continue
         car, rm, be, gc = key
+        dbg, fst = pair["debug"], pair["fast"]
         if gc == "zero":
-            runs.append((key, exe, (2, 0, 81, 0), "--max-heap-size 512M"))
+            runs.append((key, dbg, (2, 0, 81, 0), "--max-heap-size 512M", "debug"))
             continue
-        # n = 1: all plans; n = 2: four plans (quick) / all plans (thorough)
-        cheap = gc == "sweep"      # the non-moving collector makes no system calls per collection
-        runs.append((key, exe, (1, 0, 4, 1), SMALL))
-        if quick and gc is None and not (rm == "locals" or car == "class"):
-            runs.append((key, exe, (2, 0, 27, 0), SMALL))
-        else:
-            runs.append((key, exe, (2, 0, 81, 0 if (quick and not cheap) else 1), SMALL))
-        # run-time configurations on small code ranges
-        if rm == "locals" or not quick:
-            runs.append((key, exe, (2, 0, 27, 0), SMALL + " --disable-tlab --gc-verify"))
-            runs.append((key, exe, (2, 27, 54, 0), SMALL + " --gc-stress"))
-            runs.append((key, exe, (2, 54, 81, 0), SMALL + " --gc-stress-minor --disable-tlab"))
-            if gc is None:
-                runs.append((key, exe, (2, 54, 60, 0), "--max-heap-size 32M --gc-young-size 2M --gc-worker 2 --gc-verify"))
-                runs.append((key, exe, (1, 0, 1, 0), "--gc-worker 8"))
-                runs.append((key, exe, (2, 60, 66, 0), "--max-heap-size 8M --gc-young-size 1M --gc-worker 1 --gc-stress-minor"))
-        # n = 3, four plans: all 4096 graphs under the cheap collector; under the moving collectors all of them in the
-        # thorough tier and the 1024 graphs whose last slot is nil (codes 0..1023) for two carriers in the quick tier
-        total = fam_gcgraph.total_codes(3)
-        if cheap or not quick:
-            shards = 4 if cheap else 16
-            step = total // shards
-            for s in range(shards):
-                runs.append((key, exe, (3, s * step, (s + 1) * step, 0), SMALL))
-        elif car in ("class", "nested") and rm == "locals" and gc == "copy":
-            for s in range(8):
-                runs.append((key, exe, (3, s * 128, (s + 1) * 128, 0), SMALL))
-        if not quick and car == "class" and rm == "locals" and gc in ("copy", "sweep"):
-            for s in range(64):
-                runs.append((key, exe, (3, s * 64, (s + 1) * 64, 1), SMALL))
+        if gc == "sweep":
+            # the non-moving collector makes no system calls per collection: everything on the debug runtime
+            runs.append((key, dbg, (1, 0, 4, 1), SMALL, "debug"))
+            runs.append((key, dbg, (2, 0, 81, 1), SMALL, "debug"))
+            runs.append((key, dbg, (2, 0, 27, 0), SMALL + " --disable-tlab --gc-verify", "debug"))
+            runs.append((key, dbg, (2, 27, 54, 0), SMALL + " --gc-stress", "debug"))
+            if rm == "locals" or not quick:
+                for sh in range(4):
+                    runs.append((key, dbg, (3, sh * 1024, (sh + 1) * 1024, 0), SMALL, "debug"))
+            if not quick and car == "class" and rm == "locals":
+                for sh in range(64):
+                    runs.append((key, dbg, (3, sh * 64, (sh + 1) * 64, 1), SMALL, "debug"))
+            continue
+        if gc == "copy":
+            runs.append((key, dbg, (1, 0, 4, 1), SMALL, "debug"))
+            runs.append((key, dbg, (2, 0, 81, 0), SMALL, "debug"))
+            runs.append((key, dbg, (2, 0, 9 if quick else 27, 0), SMALL + " --gc-stress --disable-tlab", "debug"))
+            runs.append((key, fst, (2, 0, 81, 1), SMALL + " --gc-verify", "fast"))
+            runs.append((key, fst, (2, 27, 54, 0), SMALL + " --gc-stress-minor", "fast"))
+            for sh in range(4):
+                runs.append((key, fst, (3, sh * 1024, (sh + 1) * 1024, 0), SMALL, "fast"))
+            if not quick:
+                for sh in range(16):
+                    runs.append((key, dbg, (3, sh * 256, (sh + 1) * 256, 0), SMALL, "debug"))
+                if car == "class" and rm == "locals":
+                    for sh in range(64):
+                        runs.append((key, fst, (3, sh * 64, (sh + 1) * 64, 1), SMALL, "fast"))
+            continue
+        # the generational collector.  Its collections cost a few futex hand-offs and page operations each and do not
+        # speed up when run in parallel on this machine (~7 000 collections/s machine-wide), which bounds the quick tier.
+        full2 = (not quick) or (car == "class" and rm == "locals")
+        runs.append((key, fst, (1, 0, 4, 1), SMALL + " --gc-verify", "fast"))
+        runs.append((key, fst, (2, 0, 81 if full2 else 18, 0 if quick else 1), SMALL + " --gc-verify", "fast"))
+        runs.append((key, fst, (2, 27, 30 if quick else 54, 0), SMALL + " --gc-stress --gc-verify", "fast"))
+        runs.append((key, fst, (2, 30, 32 if quick else 54, 0), SMALL + " --gc-stress-minor --disable-tlab --gc-verify", "fast"))
+        runs.append((key, dbg, (1, 0, 4, 0), SMALL, "debug"))
+        runs.append((key, dbg, (2, 0, 3 if quick else 81, 0), SMALL, "debug"))
+        if (rm == "locals" and (car == "class" or not quick)) or not quick:
+            runs.append((key, fst, (2, 54, 57, 0), "--max-heap-size 32M --gc-young-size 2M --gc-worker 2 --gc-verify", "fast"))
+            runs.append((key, fst, (2, 60, 63, 0), "--max-heap-size 8M --gc-young-size 1M --gc-worker 1 --gc-stress-minor", "fast"))
+            runs.append((key, fst, (1, 0, 1, 0), "--gc-worker 8", "fast"))
+            runs.append((key, dbg, (2, 63, 64, 0), SMALL + " --gc-stress --gc-verify", "debug"))
+        if not quick and car in ("class", "nested") and rm == "locals":
+            for sh in range(16):
+                runs.append((key, fst, (3, sh * 256, (sh + 1) * 256, 0), SMALL + " --gc-verify", "fast"))
     refs = {}
 
     def work(run):
-        key, exe, args, flags = run
+        key, exe, args, flags, rtname = run
         if args not in refs:
             refs[args] = ref_output(*args)
+        t0 = time.time()
         r = run_checked(exe, args, flags, timeout=600)
+        r["secs"] = time.time() - t0
         return run, r
     results = core.parallel(work, runs)
+    cost = {}
+    for (key, exe, args, flags, rtname), r in results:
+        k = "%s/%s n=%d %s" % (gname(key[3]), rtname, args[0], flags.replace(SMALL, "SMALL"))
+        cost[k] = round(cost.get(k, 0) + r["secs"], 1)
+    vcommon.log("graph-run seconds by kind: " + json.dumps(dict(sorted(cost.items(), key=lambda kv: -kv[1])[:12])))
     graphs = 0
     shapes = set()
-    for (key, exe, args, flags), r in results:
+    for (key, exe, args, flags, rtname), r in results:
         car, rm, be, gc = key
         want = refs[args]
         got = r["out"].strip().splitlines()[-1:] or [""]
@@ -222,13 +260,14 @@ def phase_graphs(c, tc, scratch, tier):
             graphs += int(want.split()[0].split("=")[1])
         except Exception:
             pass
-        shapes.add((car, rm, be, gname(gc), args[0], flags))
+        shapes.add((car, rm, be, gname(gc), args[0], flags, rtname))
         if not ok:
             what = "%s / %r, expected %r" % (core.ending(r), r["out"].strip()[-300:], want)
             c.violation("c03:graphs:%s:%s:%s:%s" % (car, rm, be, gname(gc)),
-                        "graph enumerator carrier=%s roots=%s [%s, gc=%s, flags=%s] n=%d codes %d..%d: %s %s" % (
-                            car, rm, be, gname(gc), flags, args[0], args[1], args[2], what, core.first_err_line(r)),
+                        "graph enumerator carrier=%s roots=%s [%s, gc=%s, %s runtime, flags=%s] n=%d codes %d..%d: %s %s" % (
+                            car, rm, be, gname(gc), rtname, flags, args[0], args[1], args[2], what, core.first_err_line(r)),
                         {"phase": "graphs", "carrier": car, "rootmode": rm, "backend": be, "gc": gc, "args": list(args), "flags": flags,
+                         "runtime": rtname,
                          "stdout": r["out"][-2000:], "stderr": r["err"][-3000:], "expected": want})
     return {"runs": len(runs), "graphs_checked": graphs, "configurations": len(shapes),
             "carriers": list(fam_gcgraph.CARRIERS), "rootmodes": list(fam_gcgraph.ROOTMODES)}
@@ -243,7 +282,7 @@ def phase_inject(c, tc_inj, scratch, tier):
     os.makedirs(d)
     progs = fam_gcprogs.all_programs()
     if quick:
-        progs = {k: v for k, v in progs.items() if k in ("list", "values", "generic", "old2young", "deep", "enums")}
+        progs = {k: v for k, v in progs.items() if k in ("list", "values", "old2young", "enums")}
     items = []
     srcs = {}
     collectors = ["copy", None, "sweep"]
@@ -358,9 +397,9 @@ def corpus_entries(tier):
     gcish = [e for e in out if e.gcish]
     rest = [e for e in out if not e.gcish]
     if tier == "quick":
-        stride = 40
+        stride = 200
         rest = rest[vcommon.seed() % stride::stride]
-        gcish = gcish[vcommon.seed() % 4::4]
+        gcish = gcish[vcommon.seed() % 10::10]
     else:
         rest = rest[::4]
     return gcish + rest
@@ -394,7 +433,7 @@ def phase_corpus(c, tc, scratch, tier):
         "sweep": [SMALL, SMALL + " --gc-stress", SMALL + " --disable-tlab --gc-verify"],
         "zero": ["--max-heap-size 512M"],
         "swiper": [SMALL, SMALL + " --gc-stress --gc-verify", SMALL + " --gc-stress-minor --disable-tlab --gc-verify",
-                   "--max-heap-size 32M --gc-young-size 2M --gc-worker 2", "--gc-worker 8 --gc-verify"],
+                   "--max-heap-size 16M --gc-young-size 1M --gc-worker 2"] + ([] if quick else ["--gc-worker 8 --gc-verify"]),
     }
     runs = []
     for key, exe in exes.items():
@@ -487,13 +526,13 @@ def phase_reclaim(c, tc, scratch, tier):
     # element counts around the TLAB-object and large-object thresholds (bytes = 8 * elems + header)
     sizes = [1, 16, 255, 1020, 2040, 2046, 2047, 2048, 2050, 4094, 4096, 8190, 16380, 16383, 16384, 16390, 40000]
     if quick:
-        sizes = [1, 255, 2046, 2048, 4096, 16383, 16384, 40000]
+        sizes = [1, 2046, 2048, 16383, 16384]
     runs = []
     for key, exe in exes.items():
         if exe is None:
             continue
         for elems in sizes:
-            total_bytes = 24 * (1 << 20) * (8 if not quick else 5)     # >= 5x the 24M heap
+            total_bytes = 24 * (1 << 20) * (8 if not quick else 3)     # >= 3x the 24M heap
             rounds = max(200, total_bytes // (8 * elems + 16))
             rounds = min(rounds, 400000 if quick else 2000000)
             for flags in ("--max-heap-size 24M --gc-worker 1", "--max-heap-size 24M --gc-young-size 2M --gc-worker 2") if key[1] is None else ("--max-heap-size 24M",):
@@ -528,10 +567,18 @@ def main(tier):
     scratch = vcommon.scratch_dir("c03")
     only = os.environ.get("VERIF_C03_PHASES", "ABCD")
     try:
-        a = phase_graphs(c, tc, scratch, tier) if "A" in only else {}
-        b = phase_inject(c, tc_inj, scratch, tier) if "B" in only else {}
-        cc = phase_corpus(c, tc, scratch, tier) if "C" in only else {}
-        dd = phase_reclaim(c, tc, scratch, tier) if "D" in only else {}
+        times = {}
+
+        def timed(name, fn, *args):
+            t0 = time.time()
+            r = fn(*args)
+            times[name] = round(time.time() - t0, 1)
+            vcommon.log("C03 phase %s: %.1fs" % (name, times[name]))
+            return r
+        a = timed("graphs", phase_graphs, c, tc, scratch, tier, {"debug": plain, "fast": fast}) if "A" in only else {}
+        b = timed("collection-points", phase_inject, c, tc_inj, scratch, tier) if "B" in only else {}
+        cc = timed("corpus", phase_corpus, c, tc, scratch, tier) if "C" in only else {}
+        dd = timed("reclaim", phase_reclaim, c, tc, scratch, tier) if "D" in only else {}
         evals = a.get("graphs_checked", 0) + b.get("collection_points_enumerated", 0) + cc.get("runs", 0) + dd.get("runs", 0)
         c.coverage = {
             "evaluations": evals,
@@ -544,7 +591,7 @@ def main(tier):
                         {"collection_point": "program 'tree' [boots, swiper] DORA_VERIF_GC_AT=17:minor,23:minor"},
                         {"corpus": "test/rt programs x collectors x stress/TLAB/worker/heap flag sets"}],
             "exhaustive": True,
-            "graphs": a, "collection_points": b, "corpus": cc, "reclamation": dd,
+            "graphs": a, "collection_points": b, "corpus": cc, "reclamation": dd, "phase_seconds": times,
         }
         c.assumptions = ["programs run single-threaded: schedules of multi-threaded allocators are outside this check (stop-the-world protocol: C04; "
                          "parallel termination: C12)",
